@@ -80,6 +80,12 @@ type history struct {
 	// a file-system step of a flush), "restart" (clean stop/start while rows acknowledged before
 	// the drop are still in the memtable / write-ahead log only)
 	After string `json:"after,omitempty"`
+	// TwoRP: the database has a second retention policy rp1 holding the same measurements and
+	// series (DROP RETENTION POLICY histories, and every third DROP SERIES history: a DROP
+	// SERIES applies to every policy, each of which has its own series index and delete index)
+	TwoRP bool `json:"two_retention_policies,omitempty"`
+	// SecondDropFar: a second DROP SERIES follows rows written two months later (another series index)
+	SecondDropFar bool `json:"second_drop_in_a_later_index,omitempty"`
 }
 
 func lp(pts []model.Point) []string {
@@ -98,8 +104,9 @@ func genHistory(r *rand.Rand, idx int, kind string, nbuild int, after string, co
 		h.Steps = append(h.Steps, st)
 	}
 	rps := []string{"autogen"}
-	if kind == "rp" {
+	if kind == "rp" || (kind == "series" && idx%3 == 1) {
 		rps = []string{"autogen", "rp1"}
+		h.TwoRP = true
 	}
 	// every (rp, measurement, series, timestamp) is written at most once while it is live
 	// and always as a full row: overwrites, partial rows and their effect on statistics
@@ -320,6 +327,33 @@ func genHistory(r *rand.Rand, idx int, kind string, nbuild int, after string, co
 	add(step{Op: "flush"})
 	add(step{Op: []string{"compact-full", "merge", "compact-level"}[r.IntN(3)]})
 	add(step{Op: "check"})
+	if kind == "series" && idx%3 == 2 {
+		// a second DROP SERIES, on series of a series index that did not exist when the first drop
+		// created the policy's delete index: rows two months later go to another shard group and
+		// index. The pause keeps this apart from the known finding about a drop right after the
+		// first write of a series
+		far := int64(60 * 24 * 3600 * 1_000_000_000)
+		var pts []model.Point
+		for _, m := range u.Msts {
+			for si, se := range u.Series {
+				for j := 0; j < 2; j++ {
+					p := model.Point{Mst: m, Tags: se, T: u.Times[1] + far + int64(si*2+j)*1_000_000_000, Fields: map[string]model.Value{}}
+					for _, f := range u.Fields {
+						p.Fields[f.Name] = kit.Value(r, f.Kind)
+					}
+					pts = append(pts, p)
+				}
+			}
+		}
+		add(step{Op: "write", RP: "autogen", pts: pts})
+		add(step{Op: "settle"})
+		add(step{Op: "pause"})
+		d2 := &dropSpec{Kind: "series", Mst: u.Msts[r.IntN(len(u.Msts))], Key: "host", Op: "=", Val: u.Series[r.IntN(len(u.Series))]["host"]}
+		d2.Pred = fmt.Sprintf("host = '%s'", d2.Val)
+		add(step{Op: "drop", Drop: d2, Stmt: "DROP SERIES FROM " + d2.Mst + " WHERE " + d2.Pred})
+		h.SecondDropFar = true
+		add(step{Op: "check"})
+	}
 	add(step{Op: "restart"})
 	add(step{Op: "check"})
 	return h
@@ -615,8 +649,10 @@ func (rn *runner) evalShapes(s *proc.Server, w *world, rpName string, r *rand.Ra
 				h := parseSeries(k.Series)["host"]
 				cntHost[h]++
 				sumHost[h] += v.I
-				b := k.T - mod(k.T, 2_000_000_000)
-				cntTime[strconv.FormatInt(b, 10)]++
+				if k.T >= kit.BaseTime-10_000_000_000 && k.T <= kit.BaseTime+200_000_000_000 { // the statement's time range
+					b := k.T - mod(k.T, 2_000_000_000)
+					cntTime[strconv.FormatInt(b, 10)]++
+				}
 			}
 		}
 		agg("count-no-pushdown-hint", "SELECT /*+ Exact_Statistic_Query */ count(fi) FROM "+from(mst), cntAll, "", "count", mst, false)
@@ -869,7 +905,7 @@ func (rn *runner) run(h *history, worker int) {
 			fmt.Printf("INCONCLUSIVE C13 create database: %v\n", err)
 			return false
 		}
-		if h.Kind == "rp" {
+		if h.TwoRP || h.Kind == "rp" {
 			if _, err := s.Query("", "CREATE RETENTION POLICY rp1 ON "+db+" DURATION 0s REPLICATION 1", nil); err != nil {
 				c.Broken("create rp: %v", err)
 				return false
@@ -883,6 +919,7 @@ func (rn *runner) run(h *history, worker int) {
 	disableBackground(s)
 	w := &world{rp: map[string]*model.Model{}, mstGone: map[string]bool{}}
 	dropped := false
+	nDrops := 0
 	moment := "before-drop"
 	var pendingNew []model.Point
 	// rk: a row of one retention policy
@@ -905,7 +942,7 @@ func (rn *runner) run(h *history, worker int) {
 		return strings.Join(dirs, ",")
 	}
 	wit := func(i int, extra map[string]any) map[string]any {
-		x := map[string]any{"history": history{Index: h.Index, Kind: h.Kind, Young: h.Young, Concurrent: h.Concurrent, Cold: h.Cold, After: h.After, Steps: h.Steps[:i+1]}}
+		x := map[string]any{"history": history{Index: h.Index, Kind: h.Kind, Young: h.Young, Concurrent: h.Concurrent, Cold: h.Cold, After: h.After, TwoRP: h.TwoRP, SecondDropFar: h.SecondDropFar, Steps: h.Steps[:i+1]}}
 		for k, v := range extra {
 			x[k] = v
 		}
@@ -1032,6 +1069,7 @@ func (rn *runner) run(h *history, worker int) {
 			}
 			w.applyDrop(st.Drop)
 			dropped = true
+			nDrops++
 			moment = "after-drop"
 			c.Count("concurrent-drop-statements-acknowledged", int64(len(stmts)))
 		case "drop":
@@ -1048,6 +1086,7 @@ func (rn *runner) run(h *history, worker int) {
 			}
 			w.applyDrop(st.Drop)
 			dropped = true
+			nDrops++
 			moment = "after-drop"
 		case "restart", "crash":
 			hadUnflushed := len(unflushed) > 0
@@ -1137,7 +1176,7 @@ func (rn *runner) run(h *history, worker int) {
 				moment = "after-flush+reorganise"
 			}
 			rps := []string{"autogen"}
-			if h.Kind == "rp" {
+			if h.TwoRP || h.Kind == "rp" {
 				rps = append(rps, "rp1")
 			}
 			tagReadsBegan = true
@@ -1229,6 +1268,9 @@ func (rn *runner) run(h *history, worker int) {
 							}
 						}
 						sig := fmt.Sprintf("drop-%s|%s|moment=%s", h.Kind, cls, moment)
+						if nDrops >= 2 && h.SecondDropFar && moment == "after-drop" {
+							sig += "|second-drop-on-series-of-a-later-index"
+						}
 						if len(detail) > 0 {
 							sig += "|" + strings.Join(detail, "|")
 						}
